@@ -12,11 +12,11 @@ Open Scope R_scope.
 (* ------------------------------------------------------------------------------------------------------------
    1. Every one of the seven sufficient descriptions derived from a grid g gives g back: shape exactly, extent
       exactly (real arithmetic).  The values may be handed over in the projection's own unit, in another metric
-      unit (s projection units per given unit, PROJ's factor), per keyword or per DataArray attribute, or in degrees
+      unit (s projection units per given unit, the product of PROJ's unitconvert factors; also on CRSs in feet), per keyword or per DataArray attribute, or in degrees
       on a geographic CRS.  The three descriptions that contain a centre need the centre not to be moved by
       _round_poles (see 2.). *)
 Theorem C13_param_sets_agree :
-  forall (pfwd pinv : R * R -> option (R * R)) (fac : cu -> R) (geographic : bool) (crs_units : cu)
+  forall (pfwd pinv : R * R -> option (R * R)) (fac : cu -> R * R) (geographic : bool) (crs_units : cu)
          (d : desc) (g : grid) (attr units : option utok) (c : cu) (s : R),
     wf_grid g ->
     unit_ok fac geographic crs_units (eff_units crs_units attr units) c s ->
@@ -30,7 +30,7 @@ Example C13_param_sets_ex :
   let g := mk_grid (-200000) (-300000) 400000 500000 20 10 in
   let id := fun p : R * R => Some (fst p / 100000, snd p / 100000) in
   let fw := fun p : R * R => Some (fst p * 100000, snd p * 100000) in
-  wf_grid g /\ unit_ok (fun _ => 1000) false Cm (eff_units Cm None (Some UTkm)) Ckm 1000 /\
+  wf_grid g /\ unit_ok (fun _ => (1000, 1)) false Cm (eff_units Cm None (Some UTkm)) Ckm (1000 * 1) /\
   round_poles RO fw id (g_center g) (cu_eqb Ckm Cdeg) = Ok (g_center g).
 Proof.
   cbn zeta. split; [unfold wf_grid; cbn; repeat split; lra || lia|]. split.
@@ -40,6 +40,19 @@ Proof.
     + cbn [snd]. rewrite c1em4_val. rewrite (Rabs_pos_eq 1) by lra.
       unfold Rabs. destruct (Rcase_abs _); lra.
     + unfold g_center. cbn. f_equal. f_equal; lra.
+Qed.
+
+(* a CRS in US survey feet (_get_proj_units keeps the unit name: Cother) described in metres or in kilometres: PROJ goes
+   through metres, km -> m -> us-ft, and the description is rescaled by the product of the two factors *)
+Example C13_param_sets_feet_ex :
+  let fac := fun u : cu => match u with Ckm => (1000, 3937 / 1200) | _ => (3937 / 1200, 1) end in
+  get_proj_units false UNother = Cother /\
+  unit_ok fac false Cother (eff_units Cother None (Some UTmeters)) Cm (3937 / 1200 * 1) /\
+  unit_ok fac false Cother (eff_units Cother (Some UTkm) None) Ckm (1000 * (3937 / 1200)) /\
+  unit_ok fac false Cother (eff_units Cother None None) Cother 1.
+Proof.
+  cbn zeta. split; [reflexivity|]. unfold unit_ok, eff_units. cbn.
+  repeat split; try reflexivity; right; repeat split; try discriminate; lra.
 Qed.
 
 (* ------------------------------------------------------------------------------------------------------------
@@ -205,7 +218,7 @@ Proof. vm_compute. split; reflexivity. Qed.
       of the regions asked for; a region that is not in the file raises; the loaded area compares equal to the
       original whenever pyproj finds the reparsed CRS equal and no unit was rewritten. *)
 Theorem C13_dump_load_dict_id :
-  forall (crs_facts : pentry -> bool * cu * (cu -> R)) (a : area_rec (T:=R)),
+  forall (crs_facts : pentry -> bool * cu * (cu -> R * R)) (a : area_rec (T:=R)),
     area_ok crs_facts a -> load_one RO crs_facts (dump_dict a) = Ok (loaded_of crs_facts a).
 Proof. exact dump_load_one. Qed.
 Print Assumptions C13_dump_load_dict_id.
@@ -228,13 +241,25 @@ Theorem C13_dump_load_equal :
   forall crs_facts (a : area_rec (T:=R)), dumped_units a <> Some UTkm -> area_eq RO true a (loaded_of crs_facts a) = true.
 Proof. exact dump_load_equal. Qed.
 Print Assumptions C13_dump_load_equal.
+(* strings are opaque values: an empty description or proj_id is kept like any other (token 0 stands for '' here),
+   it is the PRESENCE of the key that decides; without a description entry the area id is used *)
+Example C13_empty_strings_kept :
+  let facts := fun _ : pentry => (false, Cm, fun _ : cu => (1%float, 1%float)) in
+  let body := [(Kprojection, YProj (PEpsg 3857)); (Kshape, YDict [(Kheight, YInt 2); (Kwidth, YInt 3)]);
+               (Karea_extent, YDict [(Klower_left_xy, YList [YNum 0%float; YNum 0%float]);
+                                     (Kupper_right_xy, YList [YNum 3%float; YNum 2%float])])] in
+  (match load_one F64 facts (5%Z, (Kdescription, YStr 0) :: (Kproj_id, YStr 0) :: body) with
+   | Ok l => (l_id l =? 5)%Z && (l_desc l =? 0)%Z && opt_eqb Z.eqb (l_projid l) (Some 0%Z) | Err => false end) = true /\
+  (match load_one F64 facts (5%Z, body) with
+   | Ok l => (l_id l =? 5)%Z && (l_desc l =? 5)%Z && opt_eqb Z.eqb (l_projid l) None | Err => false end) = true.
+Proof. vm_compute. split; reflexivity. Qed.
 (* area_ok is satisfiable: a kilometre CRS without EPSG code, reparsed as a projected metre CRS with factor 1000 *)
 Example C13_dump_load_ex :
   let a := @mk_area_rec R 1 2 3 None (Some UTkm) (5, 6)%Z (-100, -200, 300, 400) in
-  let facts := fun _ : pentry => (false, Cm, fun _ : cu => 1000) in
-  area_ok facts a /\ loaded_extent facts a = (-100 * 1000, -200 * 1000, 300 * 1000, 400 * 1000).
+  let facts := fun _ : pentry => (false, Cm, fun _ : cu => (1000, 1)) in
+  area_ok facts a /\ loaded_extent facts a = (-100 * (1000 * 1), -200 * (1000 * 1), 300 * (1000 * 1), 400 * (1000 * 1)).
 Proof.
   cbn zeta. split.
-  - unfold area_ok. cbn. repeat split; try lia; try lra; try discriminate. right. split; [reflexivity|lra].
+  - unfold area_ok. cbn. repeat split; try lia; try lra; try discriminate. right. repeat split; lra.
   - reflexivity.
 Qed.
